@@ -192,7 +192,7 @@ def match(seq, sub, *, rf='fwd',
     Returns:
         match (`BioMatch` or `BioMatchList` of matches or None)
     """
-    from bisect import bisect
+    from bisect import bisect_left as bisect
     import re
     from sugar.core.seq import BioSeq
 
@@ -230,7 +230,7 @@ def match(seq, sub, *, rf='fwd',
     if rf is None or len(fwd_rfs) > 0:
         for m in re.finditer(sub, str(seq)):
             if (i := m.start()) >= start:
-                # bisect(gaps, i) gives number of gaps before index i
+                # bisect_left(gaps, i) gives number of gaps before index i (a gap at i itself is not counted)
                 this_rf = (i - start - (bisect(gaps, i) if gaps else 0)) % 3 if rf is not None else None
                 if this_rf is None or this_rf in rf:
                     m = BioMatch(m, rf=this_rf, lenseq=len(seq), seqid=seq.id)
@@ -244,7 +244,7 @@ def match(seq, sub, *, rf='fwd',
             gaps = [i for i, nt in enumerate(str(seq)) if nt in gap if i >= start]
         for m in re.finditer(sub, str(seq)):
             if (i := m.start()) >= start:
-                # bisect(gaps, i) gives number of gaps before index i
+                # bisect_left(gaps, i) gives number of gaps before index i (a gap at i itself is not counted)
                 this_rf = (i - start - (bisect(gaps, i) if gaps else 0)) % 3
                 if -1*this_rf-1 in rf:
                     m = BioMatch(m, rf=-1*this_rf-1, lenseq=len(seq), seqid=seq.id)
